@@ -283,7 +283,7 @@ package main
 //@   before call WriteTo: assert [written-after-close] closedPlot
 //@   ensures [all-records-plotted-unless-interrupted] err == nil && !interrupted && d != 0 ==> n == dlen(d)
 //@   loop 1
-//@     invariant d != 0 && d == ref(dec) && 0 <= n && n == dpos(d) && n <= dlen(d) && !interrupted && !closedPlot && p != nil && out != nil && TSINV()
+//@     invariant d != 0 && d == ref(dec) && 0 <= n && n == dpos(d) && n <= dlen(d) && !interrupted && !closedPlot && p != nil && out != nil && TSINV() && PLOTINV(p)
 
 // ---------------------------------------------------------------------------------- C13 C17 (commands)
 // The command closures: with no file argument the input is stdin, so the decoder always gets at least
